@@ -11,6 +11,7 @@ import (
 	"fmt"
 	"math/rand"
 	"os"
+	"runtime/pprof"
 	"sync"
 
 	"github.com/metal-toolbox/audito-maldito/verifharness/l1"
@@ -20,21 +21,23 @@ import (
 type Program struct {
 	Name    string      `json:"name"`
 	Threads [][]l1.Call `json:"threads"`
+	Post    []l1.Call   `json:"post"`
 }
 
 type Outcome struct {
-	K        string      `json:"k"`
-	Prog     int         `json:"prog"`
-	Name     string      `json:"name"`
-	Threads  [][]l1.Call `json:"threads"`
-	Outs     []l1.Out    `json:"outs"`
-	St       *l1.StProj  `json:"st"`
-	Errs     int         `json:"errs"`
-	Deadlock bool        `json:"deadlock"`
-	Hang     bool        `json:"hang"`
-	Panic    string      `json:"panic"`
-	Count    int         `json:"count"`
-	Sched    []int       `json:"sched"`
+	K        string        `json:"k"`
+	Prog     int           `json:"prog"`
+	Name     string        `json:"name"`
+	Threads  [][]l1.Call   `json:"threads"`
+	Post     []l1.Call     `json:"post"`
+	Outs     []l1.Out      `json:"outs"`
+	St       *l1.StProj    `json:"st"`
+	Errs     int           `json:"errs"`
+	Deadlock bool          `json:"deadlock"`
+	Hang     bool          `json:"hang"`
+	Panic    string        `json:"panic"`
+	Count    int           `json:"count"`
+	Sched    []int         `json:"sched"`
 	Trace    []sched.Event `json:"trace,omitempty"`
 }
 
@@ -66,6 +69,10 @@ func runOnce(p Program, seed int64, prefix []int, mode sched.Mode, rng *rand.Ran
 			}
 		})
 	}
+	var post []func() error
+	for _, c := range p.Post {
+		post = append(post, w.Prepare(c))
+	}
 	var ex *sched.Exec
 	if free {
 		var wg sync.WaitGroup
@@ -79,7 +86,17 @@ func runOnce(p Program, seed int64, prefix []int, mode sched.Mode, rng *rand.Ran
 		w.Enc.Point = func() func() { return sched.Point(w.Enc, "Encode") }
 		ex = sched.Run(fns, prefix, mode, rng, maxPre, func(e *sched.Exec) { e.Name(w.Enc, "enc") })
 	}
-	o := &Outcome{K: "outcome", Name: p.Name, Threads: p.Threads, Errs: nerr, Panic: panics, Sched: []int{},
+	if p.Post == nil {
+		p.Post = []l1.Call{}
+	}
+	if ex == nil || (!ex.Deadlock && !ex.Hang) {
+		for _, f := range post {
+			if err := f(); err != nil {
+				nerr++
+			}
+		}
+	}
+	o := &Outcome{K: "outcome", Name: p.Name, Threads: p.Threads, Post: p.Post, Errs: nerr, Panic: panics, Sched: []int{},
 		St: &l1.StProj{Sess: []l1.SessProj{}, Wait: []l1.WaitProj{}}}
 	if ex != nil {
 		o.Deadlock, o.Hang = ex.Deadlock, ex.Hang
@@ -108,7 +125,14 @@ func main() {
 	randN := flag.Int("random", 0, "additional seeded random schedules per program")
 	maxPre := flag.Int("preempt", -1, "pre-emption bound for the exhaustive search (-1: unbounded)")
 	free := flag.Int("free", 0, "free-running repetitions per program (for -race builds); no scheduler")
+	prof := flag.String("cpuprofile", "", "write a CPU profile")
 	flag.Parse()
+	if *prof != "" {
+		pf, err := os.Create(*prof)
+		must(err)
+		must(pprof.StartCPUProfile(pf))
+		defer pprof.StopCPUProfile()
+	}
 
 	fi, err := os.Open(*in)
 	must(err)
